@@ -4,9 +4,13 @@ package goa
 
 // Contracts checked by /verif/goavc (comment-only file, built only with -tags verif).
 
+// Error identifiers come from the process-wide entropy source, which is safe for concurrent use; creating
+// an error touches no state shared between requests (C20).
 //@ func NewErrorID
+//@   property C20
 //@   ensures len8: len(result) == 8
-//@   modifies nothing
+//@   modifies* nothing
+//@   frameprop C20
 
 //@ func newError
 //@   params name timeout temporary fault format v
@@ -14,7 +18,123 @@ package goa
 //@   ensures fields: result.Name == name && result.Timeout == timeout && result.Temporary == temporary && result.Fault == fault
 //@   ensures msg: result.Message == sprintf(format, backing(v), v.off, len(v))
 //@   ensures clean: result.err == nil && len(result.history) == 0 && result.Field == nil
+//@   ensures id: len(result.ID) == 8
 //@   modifies nothing
+
+// ---- error constructors (C05: standard names, client errors; C20: no shared state) -------------
+// "Request-decoding failures are reported as client errors with the standard names": every constructor the
+// generated decoders and validators call returns a new service error with its documented name, no timeout,
+// temporary or fault flag (so the default mapping answers 400, or 415 for unsupported_media_type: lemma
+// c05_client_errors_are_4xx in package http), the offending field recorded, and writes nothing that existed.
+//@ macro clientErr(r, n) = typeIs(r, *ServiceError) && fresh(r) && r.(*ServiceError).Name == n && !r.(*ServiceError).Timeout && !r.(*ServiceError).Temporary && !r.(*ServiceError).Fault && len(r.(*ServiceError).ID) == 8
+//@ macro fieldIs(r, f) = r.(*ServiceError).Field != nil && load(r.(*ServiceError).Field) == f
+//@ func NewServiceError
+//@   params err name timeout temporary fault
+//@   property C05 C20
+//@   requires err != nil
+//@   ensures* fields: result != nil && fresh(result) && result.Name == name && result.Timeout == timeout && result.Temporary == temporary && result.Fault == fault && result.err == err && len(result.ID) == 8 && len(result.history) == 0
+//@   modifies* nothing
+//@   frameprop C20
+//@ func Fault
+//@   params format v
+//@   property C05 C20
+//@   ensures* fields: result != nil && fresh(result) && result.Name == "fault" && result.Fault && !result.Timeout && !result.Temporary
+//@   ensures msg: result.Message == sprintf(format, backing(v), v.off, len(v))
+//@   ensures clean: result.err == nil && len(result.history) == 0 && result.Field == nil && len(result.ID) == 8
+//@   modifies* nothing
+//@   frameprop C20
+//@ func PermanentError
+//@   params name format v
+//@   property C05 C20
+//@   ensures* fields: result != nil && fresh(result) && result.Name == name && !result.Fault && !result.Timeout && !result.Temporary && len(result.ID) == 8 && result.Field == nil && result.err == nil && len(result.history) == 0
+//@   ensures msg: result.Message == sprintf(format, backing(v), v.off, len(v))
+//@   modifies* nothing
+//@   frameprop C20
+//@ func TemporaryError
+//@   params name format v
+//@   property C05 C20
+//@   ensures* fields: result != nil && fresh(result) && result.Name == name && !result.Fault && !result.Timeout && result.Temporary
+//@   ensures msg: result.Message == sprintf(format, backing(v), v.off, len(v))
+//@   ensures clean: result.err == nil && len(result.history) == 0 && result.Field == nil && len(result.ID) == 8
+//@   modifies* nothing
+//@   frameprop C20
+//@ func PermanentTimeoutError
+//@   params name format v
+//@   property C05 C20
+//@   ensures* fields: result != nil && fresh(result) && result.Name == name && !result.Fault && result.Timeout && !result.Temporary
+//@   ensures msg: result.Message == sprintf(format, backing(v), v.off, len(v))
+//@   ensures clean: result.err == nil && len(result.history) == 0 && result.Field == nil && len(result.ID) == 8
+//@   modifies* nothing
+//@   frameprop C20
+//@ func TemporaryTimeoutError
+//@   params name format v
+//@   property C05 C20
+//@   ensures* fields: result != nil && fresh(result) && result.Name == name && !result.Fault && result.Timeout && result.Temporary
+//@   ensures msg: result.Message == sprintf(format, backing(v), v.off, len(v))
+//@   ensures clean: result.err == nil && len(result.history) == 0 && result.Field == nil && len(result.ID) == 8
+//@   modifies* nothing
+//@   frameprop C20
+//@ func MissingPayloadError
+//@   property C05 C20
+//@   ensures* standard: clientErr(result, "missing_payload")
+//@   modifies* nothing
+//@   frameprop C20
+//@ func DecodePayloadError
+//@   params msg
+//@   property C05 C20
+//@   ensures* standard: clientErr(result, "decode_payload")
+//@   modifies* nothing
+//@   frameprop C20
+//@ func UnsupportedMediaTypeError
+//@   params ct
+//@   property C05 C20
+//@   ensures* standard: clientErr(result, "unsupported_media_type")
+//@   modifies* nothing
+//@   frameprop C20
+//@ func InvalidFieldTypeError
+//@   params name val expected
+//@   property C05 C20
+//@   ensures* standard: clientErr(result, "invalid_field_type") && fieldIs(result, name)
+//@   modifies* nothing
+//@   frameprop C20
+//@ func MissingFieldError
+//@   params name context
+//@   property C05 C20
+//@   ensures* standard: clientErr(result, "missing_field") && fieldIs(result, name)
+//@   modifies* nothing
+//@   frameprop C20
+//@ func InvalidEnumValueError
+//@   params name val allowed
+//@   locals elems
+//@   property C05 C20
+//@   ensures* standard: clientErr(result, "invalid_enum_value") && fieldIs(result, name)
+//@   loop 1 invariant own: fresh(elems) && len(elems) == len(allowed)
+//@   modifies* nothing
+//@   frameprop C20
+//@ func InvalidFormatError
+//@   params name target format formatError
+//@   property C05 C20
+//@   ensures* standard: clientErr(result, "invalid_format") && fieldIs(result, name)
+//@   modifies* nothing
+//@   frameprop C20
+//@ func InvalidPatternError
+//@   params name target pattern
+//@   property C05 C20
+//@   ensures* standard: clientErr(result, "invalid_pattern") && fieldIs(result, name)
+//@   modifies* nothing
+//@   frameprop C20
+//@ func InvalidRangeError
+//@   params name target value min
+//@   property C05 C20
+//@   ensures* standard: clientErr(result, "invalid_range") && fieldIs(result, name)
+//@   modifies* nothing
+//@   frameprop C20
+//@ func InvalidLengthError
+//@   params name target ln value min
+//@   property C05 C20
+//@   ensures* standard: clientErr(result, "invalid_length") && fieldIs(result, name)
+//@   modifies* nothing
+//@   frameprop C20
 
 //@ func asError
 //@   params err
